@@ -31,6 +31,7 @@ type Dirty struct {
 type Round struct {
 	Pre, App int
 	Fill     byte
+	Push     []int `json:",omitempty"` // layer types recorded in the buffer during the round (what SerializeLayers does for every layer it writes)
 }
 
 type Case struct {
@@ -140,6 +141,9 @@ func dirtyBuffer(d Dirty) gopacket.SerializeBuffer {
 				b[i] = ^r.Fill
 			}
 		}
+		for _, lt := range r.Push {
+			buf.PushLayer(gopacket.LayerType(lt))
+		}
 		buf.Clear()
 	}
 	return buf
@@ -223,11 +227,21 @@ func firstDiff(a, b []byte) int {
 	return min(len(a), len(b))
 }
 
+var pushTypes = []gopacket.LayerType{gopacket.LayerTypePayload, layers.LayerTypeUDP, layers.LayerTypeTCP, layers.LayerTypeIPv6HopByHop, layers.LayerTypeIPv6Destination,
+	layers.LayerTypeIPv6, layers.LayerTypeIPv4, layers.LayerTypeEthernet, layers.LayerTypeGRE, layers.LayerTypeDot1Q}
+
 func genDirty(t *rapid.T) Dirty {
 	var d Dirty
 	n := rapid.IntRange(0, 3).Draw(t, "rounds")
 	for i := 0; i < n; i++ {
-		d.Rounds = append(d.Rounds, Round{Pre: rapid.SampledFrom([]int{0, 1, 7, 64, 300, 4096}).Draw(t, "dpre"), App: rapid.SampledFrom([]int{0, 1, 7, 64, 2000}).Draw(t, "dapp"), Fill: rapid.SampledFrom([]byte{0xA5, 0x5A, 0xFF, 0x01}).Draw(t, "dfill")})
+		r := Round{Pre: rapid.SampledFrom([]int{0, 1, 7, 64, 300, 4096}).Draw(t, "dpre"), App: rapid.SampledFrom([]int{0, 1, 7, 64, 2000}).Draw(t, "dapp"), Fill: rapid.SampledFrom([]byte{0xA5, 0x5A, 0xFF, 0x01}).Draw(t, "dfill")}
+		if rapid.Bool().Draw(t, "dpush") {
+			// the earlier packet's layer types, innermost first as SerializeLayers records them
+			for _, lt := range rapid.SliceOfN(rapid.SampledFrom(pushTypes), 1, 4).Draw(t, "dpushed") {
+				r.Push = append(r.Push, int(lt))
+			}
+		}
+		d.Rounds = append(d.Rounds, r)
 	}
 	return d
 }
@@ -290,7 +304,7 @@ func TestAllTypes(t *testing.T) {
 		}
 		for s := 0; s < n; s++ {
 			c := &Case{Source: "filled", Type: name, Seed: uint64(s)*2654435761 + 12345, Payload: []byte{1, 2, 3, 4, 5}[:s%6], Fix: s&1 == 0, Csum: s&2 == 0,
-				Dirty: Dirty{Rounds: []Round{{Pre: 300, App: 300, Fill: 0xA5}}}, HintP: 64, HintA: 7}
+				Dirty: Dirty{Rounds: []Round{{Pre: 300, App: 300, Fill: 0xA5, Push: []int{int(gopacket.LayerTypePayload), int(layers.LayerTypeIPv6HopByHop), int(layers.LayerTypeIPv6), int(layers.LayerTypeEthernet)}}}}, HintP: 64, HintA: 7}
 			f, _, nt := runCase(c)
 			total++
 			S.Note(vh.Hash64(name, s), nt, "sweep", "type:"+name)
